@@ -86,6 +86,19 @@ def gen_scenarios(spec, rng, n):
                 continue
             actors[j % nact]["ops"].append(gen_op(spec, rng, fs, s, m, af, f"o{j}", client))
         engine.add_in_place_edits(rng, actors)
+        for a in actors:
+            new_ops = []
+            for op in a["ops"]:
+                new_ops.append(op)
+                if op.get("rejected") and op.get("form") == "msg" and op["kind"] == "unary" and rng.random() < 0.6:
+                    # the caller catches the error and submits the SAME request object again, untouched
+                    import copy
+                    again = copy.deepcopy(op)
+                    again.update(id=op["id"] + "again", resubmit_of=op["id"], server=[{"lat": 0.0, "reply": {}}])
+                    again.pop("rejected", None)
+                    again.pop("mutate_of", None)
+                    new_ops.append(again)
+            a["ops"] = new_ops
         if rng.random() < 0.25:
             # the host application re-seeds the global PRNG with the same value before every call
             svc0 = um[0][1]["name"]
@@ -297,7 +310,11 @@ def judge(spec, scenario, history):
                     return V("not_uuid4", f"{f} was left {'empty' if st == 'empty' else 'unset'} by the caller; attempt "
                              f"{e['n']} carried {wire!r}, which is not an RFC-4122 version-4 UUID")
                 owner = seen.setdefault(wire, (op["id"], f))
-                if owner != (op["id"], f):
+                if op.get("resubmit_of") is not None and owner == (op["resubmit_of"], f):
+                    # the same object, untouched, after an error: it still holds the id the client wrote into it; whether
+                    # the re-submission keeps that id or gets a new one is not stated - it must be a UUID4 either way
+                    _bump(probes, "resubmitted_same_object_after_error")
+                elif owner != (op["id"], f):
                     return V("uuid_not_fresh", f"{f}={wire} was already sent as {owner[1]} of invocation {owner[0]}: every "
                              f"auto-populated field of every invocation needs its own fresh UUID")
                 _bump(probes, "populated")
